@@ -21,6 +21,8 @@ where
     now: usize,
     iter: I,
     communication: Vec<ThreadCommunication<I::Item, T>>,
+    /// `finished[i]` is true once thread `i` has been told that there is no more work.
+    finished: Vec<bool>,
     handles: Vec<std::thread::JoinHandle<()>>,
 }
 
@@ -59,11 +61,24 @@ where
             return None;
         }
 
-        // Get answer from the thread number `self.now`.
-        let result = self.communication[self.now].receive.recv().unwrap_or_default();
+        // The thread number `self.now` has been told to finish, all results which were
+        // computed after that by the other threads have been returned. We are done.
+        if self.finished[self.now] {
+            return None;
+        }
+
+        // Get answer from the thread number `self.now`. The thread has been given a task so
+        // the only way how it could have hung up is that `fun` has panicked. Do not pretend
+        // that this is the end of the iteration.
+        let result = match self.communication[self.now].receive.recv() {
+            Ok(result) => result,
+            Err(_) => panic!("A worker thread of parallel_map has panicked."),
+        };
 
         // Some(task) means more work for the thread, None means the thread should finish.
-        let _ = self.communication[self.now].send.send(self.iter.next());
+        let next_task = self.iter.next();
+        self.finished[self.now] = next_task.is_none();
+        let _ = self.communication[self.now].send.send(next_task);
 
         // Move to the next thread (which should be finishing soonest if all tasks take
         // the same time).
@@ -139,7 +154,8 @@ where
         let _ = communication[t].send.send(next_task);
     }
 
-    ParallelMap { now: 0, iter, communication, handles }
+    let finished = vec![false; communication.len()];
+    ParallelMap { now: 0, iter, communication, finished, handles }
 }
 
 #[cfg(test)]
